@@ -40,6 +40,8 @@ def prepare():
     import dulwich.repo  # noqa: F401
     import dulwich.porcelain  # noqa: F401
     logging.disable(logging.CRITICAL)
+    from . import util
+    util.enter_private_scratch()
     gc.disable()
     gc.collect()
     gc.freeze()
